@@ -161,6 +161,16 @@ def helper(drv, model, kind):
         fa.add_loopless(model)
     elif kind == "add_lp_feasibility":
         su.add_lp_feasibility(model)
+    elif kind == "custom_objective":
+        # an objective the user wrote over solver variables: forward and reverse coefficients of a reaction are
+        # whatever the expression says (not c / -c)
+        rx = list(model.reactions)
+        if not rx:
+            raise Skip("no reactions")
+        expr = 2 * rx[0].forward_variable
+        for r in rx[1:3]:
+            expr = expr + r.forward_variable + 3 * r.reverse_variable
+        model.objective = model.problem.Objective(expr, direction="max")
     else:
         raise Skip("unknown helper " + kind)
     return None
